@@ -297,7 +297,9 @@ def check_multiform_semantics(idx: Index, rep: Report, tier: str):
         return tuple((i, p) for i, p in enumerate(w) if p != "I")
     words = ["".join(w) for w in itertools.product("IXYZ", repeat=2)]
     multi = [{word("XZ"): 1.0, word("IY"): 2.0}, {word("ZI"): 1.0, word("XY"): 0.5}, {word("XI"): 1.0, word("IZ"): 2.0}, {word("ZZ"): -1.5, word("XX"): 1.0, word("YY"): 1.0},
-             {word("XI"): 1.0, word("ZI"): 1.0}, {word("XY"): 1j, word("YX"): -1j, word("II"): 0.5}]
+             {word("XI"): 1.0, word("ZI"): 1.0}, {word("XY"): 1j, word("YX"): -1j, word("II"): 0.5},
+             # a product whose identity part cancels inexactly (0.1 + 0.2 - 0.3 in floating point): the residual is a term like any other
+             {word("XI"): 0.1, word("ZI"): 0.2, word("II"): -0.3}, {word("XI"): 1.0, word("ZI"): 1.0, word("II"): 1.0}]
     ops = [{word(w): 1.0} for w in words] + multi
     try:
         forms = [folder().call_funcval(FuncVal(fq.node, home=MULTI), [cls, qop(t), 2], {}) for t in ops]
@@ -355,7 +357,32 @@ def check_multiform_semantics(idx: Index, rep: Report, tier: str):
             bad_p.append(f"({_show(ops[i])}) * ({_show(ops[j])}) = {_show(got)}, symbolic product {_show(want)}")
         elif prod.fields["integer"].shape[0] != len(prod.fields["terms"]) or len(prod.fields["factors"]) != len(prod.fields["terms"]):
             bad_p.append(f"({_show(ops[i])}) * ({_show(ops[j])}): {prod.fields['integer'].shape[0]} rows for {len(prod.fields['terms'])} terms")
-    rep.decide(not bad_p, rule, mul, mul.node, text=f"array product on {m} ordered pairs: words, phases and collapsed duplicates",
+    # chains: the product of a product (an operator left with a residual factor has to stay a usable operand)
+    ia, ib = len(ops) - 2, len(ops) - 1
+    for first, second, third in ((ia, ib, ib), (ib, ia, ib), (len(words) + 3, len(words) + 3, len(words) + 3)):
+        try:
+            p1 = folder().call_funcval(FuncVal(mul.node, bound_self=forms[first], home=MULTI), [forms[second]], {})
+            p2 = folder().call_funcval(FuncVal(mul.node, bound_self=p1, home=MULTI), [forms[third]], {})
+        except Undecidable as e:
+            raise AnalysisError(f"MultiformOperator.__mul__ not foldable on a chain: {e}")
+        except Raised as e:
+            bad_p.append(f"(({_show(ops[first])}) * ({_show(ops[second])})) * ({_show(ops[third])}) raises {e.exc_type}")
+            continue
+        m += 1
+        want = {(): 1.0}
+        for t in (ops[first], ops[second], ops[third]):
+            nxt = {}
+            for wa_, ca in want.items():
+                for wb_, cb in t.items():
+                    ph, w = _simplify(tuple(wa_) + tuple(wb_))
+                    nxt[w] = nxt.get(w, 0) + ca * cb * ph
+            want = nxt
+        got = {k: complex(v) for k, v in p2.fields["terms"].items()}
+        if any(abs(got.get(k, 0) - want.get(k, 0)) > 1e-9 for k in set(got) | set(want)):
+            bad_p.append(f"(({_show(ops[first])}) * ({_show(ops[second])})) * ({_show(ops[third])}) = {_show(got)}, symbolic product {_show(want)}")
+        elif p2.fields["integer"].shape[0] != len(p2.fields["terms"]) or len(p2.fields["factors"]) != len(p2.fields["terms"]):
+            bad_p.append(f"(({_show(ops[first])}) * ({_show(ops[second])})) * ({_show(ops[third])}): {p2.fields['integer'].shape[0]} rows for {len(p2.fields['terms'])} terms")
+    rep.decide(not bad_p, rule, mul, mul.node, text=f"array product on {m} ordered pairs and chains: words, phases and collapsed duplicates",
                what="the product of two array-form operators has the terms and coefficients of the symbolic product, duplicate words added up, one row per term",
                reason="; ".join(bad_p[:2]))
     rep.floor("array-form pairs folded", n + m, 300)
